@@ -57,8 +57,8 @@ std::string Options::get(const std::string &key, const std::string &dflt) const 
 namespace {
 
 constexpr int MAXDEPTH = 32768;
-constexpr int MAXSPLIT = 16;
-constexpr int QCAP = 1 << 16;
+constexpr int MAXSPLIT = 512;  // longest prefix that can be handed to another worker
+constexpr int QCAP = 1 << 12;
 constexpr int MAXVIOL = 8;
 constexpr int MAXWORKERS = 64;
 constexpr int MAXKF = 64;
@@ -66,8 +66,9 @@ constexpr int MAXCOUNTERS = 48;
 
 struct Pos {
   uint16_t n, chosen, label;
-  uint8_t kinds[MAXALT];
+  uint8_t kinds[MAXALT];  // all zero for picks with more than MAXALT (free) alternatives
   uint8_t pad[2];
+  inline uint8_t kind(int alt) const { return alt < MAXALT ? kinds[alt] : (uint8_t)FREE; }
 };
 
 struct Item {
@@ -95,6 +96,7 @@ struct Slot {
 
 struct Viol {
   int used;
+  int round_total;
   int depth;
   int count;
   int confirmed;
@@ -124,6 +126,7 @@ struct Shared {
   int done;
   int nworkers;
   std::atomic<int> stop;  // 1 violation limit, 2 deadline, 3 hard error
+  double viol_deadline;   // real time after which the run stops once a violation was found
   std::atomic<uint64_t> execs, transitions, states, outcomes, pruned, items, crashes, known_execs, table_used, table_full, maxdepth;
   std::atomic<uint64_t> queue_overflow;
   int cap[NKINDS];
@@ -236,13 +239,20 @@ int find_kf(const std::string &sig) {
 // ---------------------------------------------------------------------------------------------
 int Ctx::pick(const char *label, int n) {
   static const uint8_t zero[MAXALT] = {0};
-  return pick_costed(label, n, zero);
+  if (n > 60000) hard_error(sfmt("pick '%s' with n=%d", label, n));
+  int c = pick_costed(label, n > MAXALT ? -n : n, zero);
+  // a data choice is part of what determines the future: fold it into the observation log, which
+  // every state hash includes (scheduler choices go through pick_costed and are not folded)
+  obs_.add((uint64_t(label_hash(label)) << 32) | (uint64_t)c);
+  return c;
 }
 
 int Ctx::pick_costed(const char *label, int n, const uint8_t *kinds) {
+  int nk = n;  // number of cost entries that are meaningful
+  if (n < -MAXALT) { n = -n; nk = MAXALT; }  // wide free pick (from pick())
   if (n <= 0) hard_error(sfmt("pick '%s' with n=%d", label, n));
   if (n == 1) return 0;
-  if (n > MAXALT) hard_error(sfmt("pick '%s' with n=%d > MAXALT", label, n));
+  if (n > MAXALT && nk != MAXALT) hard_error(sfmt("costed pick '%s' with n=%d > MAXALT", label, n));
   if (kinds[0] != FREE) hard_error(sfmt("pick '%s': alternative 0 must be free", label));
   uint16_t lh = label_hash(label);
   Pos *p;
@@ -255,8 +265,8 @@ int Ctx::pick_costed(const char *label, int n, const uint8_t *kinds) {
                             p->n, p->label, label, n, lh));
       hard_error(g_slot->msg);
     }
-    if (p->kinds[0] == 0xff) { memset(p->kinds, 0, sizeof p->kinds); memcpy(p->kinds, kinds, n); }  // replay file: costs come from the run
-    if (memcmp(p->kinds, kinds, n) != 0) hard_error(sfmt("replay diverged at choice %d: costs differ ('%s')", g_pos, label));
+    if (p->kinds[0] == 0xff) { memset(p->kinds, 0, sizeof p->kinds); memcpy(p->kinds, kinds, nk); }  // replay file: costs come from the run
+    if (memcmp(p->kinds, kinds, nk) != 0) hard_error(sfmt("replay diverged at choice %d: costs differ ('%s')", g_pos, label));
   } else {
     if (g_slot->depth >= MAXDEPTH) hard_error("execution has more than MAXDEPTH choices");
     p = &g_slot->stack[g_slot->depth];
@@ -264,11 +274,12 @@ int Ctx::pick_costed(const char *label, int n, const uint8_t *kinds) {
     p->chosen = 0;
     p->label = lh;
     memset(p->kinds, 0, sizeof p->kinds);
-    memcpy(p->kinds, kinds, n);
+    memcpy(p->kinds, kinds, nk);
+    p->pad[0] = p->pad[1] = 0;
     g_slot->depth++;
   }
   int c = p->chosen;
-  uint8_t k = p->kinds[c];
+  uint8_t k = p->kind(c);
   if (k != FREE) { g_used[k]++; g_used_total++; }
   g_th.add((uint64_t(lh) << 32) | (uint64_t(n) << 16) | uint64_t(c));
   if (tracing_) printf("  choice[%d] %s: %d of %d%s%s\n", g_pos, label, c, n, k ? " cost=" : "", k ? kKindName[k] : "");
@@ -284,7 +295,8 @@ bool Ctx::in_prefix() const { return g_pos < g_prefix_len; }
 const Options &Ctx::opt() const { return g_opt; }
 bool Ctx::thorough() const { return g_opt.thorough; }
 void Ctx::stage(const char *s) { snprintf(g_slot->stage, sizeof g_slot->stage, "%s", s); }
-void Ctx::step(uint64_t n) { g_sh->transitions += n; }
+static uint64_t g_local_steps = 0;
+void Ctx::step(uint64_t n) { g_local_steps += n; }
 
 bool Ctx::state(const H128 &h) {
   bool isnew;
@@ -294,9 +306,41 @@ bool Ctx::state(const H128 &h) {
 }
 
 void Ctx::prune_point(const H128 &h0) {
+  if (covered(h0)) throw Pruned{};
+}
+
+static void finalize_slot() {
+  g_sh->transitions += g_local_steps;
+  g_local_steps = 0;
+  g_slot->th_a = g_th.a;
+  g_slot->th_b = g_th.b;
+  uint64_t d = (uint64_t)g_slot->depth, m = g_sh->maxdepth.load();
+  while (d > m && !g_sh->maxdepth.compare_exchange_weak(m, d)) {}
+}
+
+void Ctx::exit_pruned() {
+  if (!g_opt.fork_per_exec) throw Pruned{};
+  g_slot->result = RS_PRUNED;
+  finalize_slot();
+  fflush(stdout);
+  _exit(0);
+}
+
+void Ctx::exit_fail(const std::string &sig, const std::string &msg) {
+  if (!g_opt.fork_per_exec) fail(sig, msg);
+  int k = find_kf(sig);
+  if (k >= 0) g_sh->kf_hits[k]++;
+  record_violation(k >= 0 ? RS_KNOWN : RS_VIOLATION, sig, msg);
+  if (tracing_) printf("  FAIL %s: %s\n", sig.c_str(), msg.c_str());
+  finalize_slot();
+  fflush(stdout);
+  _exit(0);
+}
+
+bool Ctx::covered(const H128 &h0) {
   bool isnew;
   Entry *e = table_get(h0.a, h0.b, &isnew);
-  if (!e) return;
+  if (!e) return false;
   uint8_t rem[NKINDS];
   for (int k = 0; k < NKINDS; ++k) { int r = g_sh->cap[k] - g_used[k]; rem[k] = (uint8_t)(r < 0 ? 0 : r); }
   int rt = g_sh->total_cap - g_used_total;
@@ -306,9 +350,9 @@ void Ctx::prune_point(const H128 &h0) {
     memcpy(e->rem, rem, NKINDS);
     e->total = tot;
     e->flag = 2;
-    return;
+    return false;
   }
-  if (e->flag != 2) { memcpy(e->rem, rem, NKINDS); e->total = tot; e->flag = 2; return; }  // racing insert
+  if (e->flag != 2) { memcpy(e->rem, rem, NKINDS); e->total = tot; e->flag = 2; return false; }  // racing insert
   bool covered = e->total >= tot;
   bool dominates = tot >= e->total;
   for (int k = 1; k < NKINDS; ++k) {
@@ -317,9 +361,10 @@ void Ctx::prune_point(const H128 &h0) {
   }
   if (covered && g_opt.cache && g_pos >= g_prefix_len) {
     g_sh->pruned++;
-    throw Pruned{};
+    return true;
   }
   if (!covered && dominates) { memcpy(e->rem, rem, NKINDS); e->total = tot; }
+  return false;
 }
 
 void Ctx::outcome(const std::string &canon) {
@@ -412,10 +457,7 @@ void run_exec(bool tracing) {
   if (g_slot->result != RS_PRUNED && g_slot->result != RS_VIOLATION && g_slot->result != RS_KNOWN && g_pos < g_prefix_len)
     hard_error(sfmt("NONDETERMINISM: execution ended after %d choices but the replayed prefix has %d", g_pos, g_prefix_len));
   // an execution that stopped early inside its prefix keeps the prefix (nothing beyond it was explored)
-  g_slot->th_a = g_th.a;
-  g_slot->th_b = g_th.b;
-  uint64_t d = (uint64_t)g_slot->depth, m = g_sh->maxdepth.load();
-  while (d > m && !g_sh->maxdepth.compare_exchange_weak(m, d)) {}
+  finalize_slot();
 }
 
 void add_violation_from_slot(Slot *s) {
@@ -429,6 +471,7 @@ void add_violation_from_slot(Slot *s) {
     // keep the shortest counterexample
     if (s->depth < sh->viol[found].depth) {
       sh->viol[found].depth = s->depth;
+      sh->viol[found].round_total = sh->total_cap;
       memcpy(sh->viol[found].stack, s->stack, sizeof(Pos) * s->depth);
       snprintf(sh->viol[found].msg, sizeof sh->viol[found].msg, "%s", s->msg);
       sh->viol[found].th_a = s->th_a;
@@ -437,6 +480,7 @@ void add_violation_from_slot(Slot *s) {
   } else if (sh->nviol < MAXVIOL) {
     Viol &v = sh->viol[sh->nviol];
     v.used = 1;
+    v.round_total = sh->total_cap;
     v.count = 1;
     v.depth = s->depth;
     snprintf(v.sig, sizeof v.sig, "%s", s->sig);
@@ -445,6 +489,7 @@ void add_violation_from_slot(Slot *s) {
     v.th_b = s->th_b;
     memcpy(v.stack, s->stack, sizeof(Pos) * s->depth);
     sh->nviol++;
+    if (sh->nviol == 1) sh->viol_deadline = real_now() + 4.0;
     if (sh->nviol >= g_opt.max_violations || sh->nviol >= MAXVIOL) sh->stop = 1;
   }
   unlock(sh->vlock);
@@ -523,21 +568,38 @@ bool backtrack(Slot *s) {
   for (int i = 0; i < depth; ++i) {
     memcpy(g_ub[i + 1], g_ub[i], sizeof g_ub[0]);
     g_ubt[i + 1] = g_ubt[i];
-    uint8_t k = s->stack[i].kinds[s->stack[i].chosen];
+    uint8_t k = s->stack[i].kind(s->stack[i].chosen);
     if (k != FREE) { g_ub[i + 1][k]++; g_ubt[i + 1]++; }
+  }
+  // Work sharing: when the queue runs dry, hand out the remaining alternatives of the shallowest
+  // open position (the largest unexplored subtrees). Positions below split_depth are always handed out.
+  // pad[0] marks a position whose alternatives have all been handed out.
+  for (int pass = 0; pass < 2; ++pass) {
+    bool hungry = g_sh->qn < g_sh->nworkers;
+    if (pass == 1 && !hungry) break;
+    for (int i = s->item_len; i < depth && i < MAXSPLIT; ++i) {
+      Pos &p = s->stack[i];
+      if (p.pad[0]) continue;
+      if (pass == 0 && i >= g_opt.split_depth) break;
+      bool any = false, all = true;
+      for (int alt = p.chosen + 1; alt < p.n; ++alt) {
+        if (!affordable(g_ub[i], g_ubt[i], p.kind(alt))) continue;
+        any = true;
+        if (!queue_push(s->stack, i + 1, alt)) { all = false; break; }
+      }
+      if (all) p.pad[0] = 1;
+      if (pass == 1 && any) break;  // one position per call is enough
+    }
   }
   for (int i = depth - 1; i >= s->item_len; --i) {
     Pos &p = s->stack[i];
+    if (p.pad[0]) continue;
     for (int alt = p.chosen + 1; alt < p.n; ++alt) {
-      if (!affordable(g_ub[i], g_ubt[i], p.kinds[alt])) continue;
-      if (i < g_opt.split_depth && i < MAXSPLIT) {
-        if (queue_push(s->stack, i + 1, alt)) continue;
-      }
+      if (!affordable(g_ub[i], g_ubt[i], p.kind(alt))) continue;
       p.chosen = (uint16_t)alt;
       s->depth = i + 1;
       return true;
     }
-    if (i < g_opt.split_depth) p.chosen = (uint16_t)(p.n - 1);  // everything at this position handed out
   }
   return false;
 }
@@ -546,6 +608,15 @@ void worker_loop(int w, bool resume) {
   g_slot = &g_sh->slots[w];
   Slot *s = g_slot;
   s->pid = getpid();
+  {
+    // one CPU per worker: the threads of an execution run strictly one at a time, so keeping them
+    // on one CPU makes every hand-off a local context switch
+    long ncpu = sysconf(_SC_NPROCESSORS_ONLN);
+    cpu_set_t set;
+    CPU_ZERO(&set);
+    CPU_SET((unsigned)(w % (ncpu > 0 ? ncpu : 1)), &set);
+    sched_setaffinity(0, sizeof set, &set);
+  }
   bool have = false;
   if (resume && s->has_item) have = backtrack(s);  // continue after the crashed execution
   for (;;) {
@@ -556,6 +627,7 @@ void worker_loop(int w, bool resume) {
     }
     if (g_sh->stop) break;
     if (real_now() > g_deadline) { g_sh->stop = 2; break; }
+    if (g_sh->nviol > 0 && real_now() > g_sh->viol_deadline) { g_sh->stop = 1; break; }
     // execute
     s->busy = 1;
     if (g_opt.fork_per_exec) {
@@ -656,6 +728,7 @@ int replay_in_child(const Pos *st, int depth, bool tracing, std::string *sig, ui
   return s->result;
 }
 
+int g_replay_caps[6] = {-1, -1, -1, -1, -1, -1};
 bool parse_replay(const std::string &path, std::vector<Pos> *out, std::string *tier) {
   std::ifstream in(path);
   if (!in) return false;
@@ -675,6 +748,11 @@ bool parse_replay(const std::string &path, std::vector<Pos> *out, std::string *t
     memset(&q, 0, sizeof q);
     q.n = (uint16_t)n; q.chosen = (uint16_t)c; q.label = (uint16_t)l;
     out->push_back(q);
+  }
+  size_t cp = all.find("\"caps\"");
+  if (cp != std::string::npos) {
+    size_t a = all.find('"', all.find(':', cp));
+    sscanf(all.c_str() + a + 1, "%d %d %d %d %d %d", &g_replay_caps[0], &g_replay_caps[1], &g_replay_caps[2], &g_replay_caps[3], &g_replay_caps[4], &g_replay_caps[5]);
   }
   size_t t = all.find("\"tier\"");
   if (t != std::string::npos) {
@@ -762,8 +840,10 @@ int harness_main(int argc, char **argv, const char *harness, const char *propert
     // wildcard and let pick_costed accept them.
     for (size_t i = 0; i < replay.size(); ++i) { s->stack[i] = replay[i]; memset(s->stack[i].kinds, 0xff, MAXALT); }
     s->depth = (int)replay.size();
-    g_sh->cap[PREEMPT] = g_sh->cap[TIMER] = g_sh->cap[CAS] = g_sh->cap[WAKE] = g_sh->cap[MUT] = 1 << 20;
-    g_sh->total_cap = 1 << 20;
+    if (g_replay_caps[0] >= 0) {
+      for (int k = 1; k < NKINDS; ++k) g_sh->cap[k] = g_replay_caps[k - 1];
+      g_sh->total_cap = g_replay_caps[5];
+    }
     std::string sig, msg;
     uint64_t a, b;
     int r = replay_in_child(s->stack, s->depth, true, &sig, &a, &b, &msg);
@@ -782,11 +862,19 @@ int harness_main(int argc, char **argv, const char *harness, const char *propert
     // The warm-up runs in this process when executions are forked (so that function-local statics
     // are initialised in the image every child is forked from), otherwise in a child.
     if (g_opt.fork_per_exec) {
-      g_slot = &g_sh->slots[MAXWORKERS - 1];
-      g_slot->depth = 0;
-      run_exec(false);
-      if (g_slot->result == RS_VIOLATION)
-        fprintf(stderr, "vf: note: warm-up execution already violates: %s %s\n", g_slot->sig, g_slot->msg);
+      // first in a child: if even the default execution fails, the exploration below will report it
+      Pos none[1];
+      int r = replay_in_child(none, 0, false, &sig, &a, &b, &msg);
+      if (r == RS_OK) {
+        g_slot = &g_sh->slots[MAXWORKERS - 1];
+        g_slot->depth = 0;
+        bool savecache = g_opt.cache;
+        g_opt.cache = false;
+        run_exec(false);
+        g_opt.cache = savecache;
+      } else {
+        fprintf(stderr, "vf: note: the default execution does not pass (result %d %s); skipping in-process warm-up\n", r, sig.c_str());
+      }
     }
     g_sh->execs = 0; g_sh->transitions = 0; g_sh->states = 0; g_sh->outcomes = 0; g_sh->pruned = 0; g_sh->items = 0;
     g_sh->crashes = 0; g_sh->known_execs = 0; g_sh->maxdepth = 0; g_sh->nviol = 0; g_sh->stop = 0;
@@ -869,6 +957,7 @@ int harness_main(int argc, char **argv, const char *harness, const char *propert
   std::vector<std::string> replay_paths;
   for (int i = 0; i < nviol; ++i) {
     Viol &v = g_sh->viol[i];
+    g_sh->total_cap = v.round_total;
     bool same = true;
     std::string why;
     for (int rep = 0; rep < 2 && same; ++rep) {
@@ -895,6 +984,7 @@ int harness_main(int argc, char **argv, const char *harness, const char *propert
     out << "{\n \"property\": \"" << g_opt.property << "\",\n \"harness\": \"" << g_opt.harness << "\",\n \"tier\": \"" << tier
         << "\",\n \"args\": [" << args << "],\n \"signature\": \"" << json_escape(v.sig) << "\",\n \"message\": \"" << json_escape(v.msg)
         << "\",\n \"occurrences\": " << v.count << ",\n \"confirmed_by_two_replays\": " << (same ? "true" : "false")
+        << ",\n \"caps\": \"" << g_opt.cap[1] << " " << g_opt.cap[2] << " " << g_opt.cap[3] << " " << g_opt.cap[4] << " " << g_opt.cap[5] << " " << v.round_total << "\""
         << ",\n \"format\": \"choices are n:chosen:labelhash in execution order\",\n \"choices\": \"" << choices_string(v.stack, v.depth)
         << "\"\n}\n";
     out.close();
